@@ -195,8 +195,22 @@ class C06(PropBase):
             out.append(self.mk("repo-example", text))
         return out
 
+    def gen_large(self, rng):
+        """a journal larger than any plausible batch size of a writer (1025 .. 2100 transactions): the export is one
+        transaction after the other with a blank line between any two, whatever the size"""
+        import datetime
+        n = rng.choice([1025, 1030, 2049, 2100])
+        base = common.civil_to_ns(2024, 1, 1, 0, 0, 0, 0, 0)
+        parts = []
+        for i in range(n):
+            dt = common.EPOCH + datetime.timedelta(seconds=base // 10 ** 9 + i * 600)
+            parts.append("%s (%d) 'n%d\n e:x  %d.%02d\n a:cash\n" % (dt.strftime("%Y-%m-%dT%H:%M:%SZ"), i, i % 9, 1 + i % 50, i % 100))
+        return self.mk("large:%d" % n, "\n".join(parts))
+
     def gen(self, rng, tier, focus=None):
         out = list(self.boundary(rng)) + self.repo_examples()
+        for _ in range(1 if tier == "quick" else 6):
+            out.append(self.gen_large(rng))
         n = 700 if tier == "quick" else 25000
         for i in range(n):
             cfg = {}
